@@ -521,4 +521,412 @@ theorem braceText_render (L : Layout) (hL : LayoutOk L) (T : List Stmt) (hT : Li
   rw [this]
   simp [hu, flatten]
 
+/-! ### the indentation parent of a flattened tree -/
+
+mutual
+def depthsStmt (d : Nat) : Stmt → List Nat
+  | .node _ cs => d :: depthsList (d + 1) cs
+def depthsList (d : Nat) : List Stmt → List Nat
+  | [] => []
+  | s :: ss => depthsStmt d s ++ depthsList d ss
+end
+
+theorem indent_line {t : Str} (ht : TextOk t) (n : Nat) : indent (List.replicate n ' ' ++ t) = n := by
+  obtain ⟨c, t', rfl, hc, -, -⟩ := ht.head
+  have h : ∀ n, lstrip (List.replicate n ' ' ++ c :: t') = c :: t' := by
+    intro n
+    induction n with
+    | zero => simpa using lstrip_cons_printable t' hc
+    | succ n ih =>
+      have hs : isSpace ' ' = true := by decide
+      simpa [lstrip, List.replicate_succ, hs] using ih
+  simp only [indent, h n]
+  simp
+
+mutual
+theorem indents_stmt : ∀ (s : Stmt) (d : Nat), StmtOk s →
+    (flattenStmt d s).map indent = (depthsStmt d s).map (4 * ·)
+  | .node ws cs, d, hs => by
+    have hws : WordsOk ws := by unfold StmtOk at hs; exact hs.1
+    have hcs : ListOk cs := by unfold StmtOk at hs; exact hs.2
+    simp [flattenStmt, depthsStmt, indent_line (words_textOk hws), indents_list cs (d + 1) hcs]
+theorem indents_list : ∀ (ss : List Stmt) (d : Nat), ListOk ss →
+    (flattenList d ss).map indent = (depthsList d ss).map (4 * ·)
+  | [], _, _ => by simp [flattenList, depthsList]
+  | s :: ss, d, hs => by
+    have hs1 : StmtOk s := by unfold ListOk at hs; exact hs.1
+    have hs2 : ListOk ss := by unfold ListOk at hs; exact hs.2
+    simp [flattenList, depthsList, indents_stmt s d hs1, indents_list ss d hs2]
+end
+
+mutual
+theorem depths_stmt_ge : ∀ (s : Stmt) (d : Nat), ∀ x ∈ depthsStmt d s, d ≤ x
+  | .node _ cs, d => by
+    intro x hx
+    simp only [depthsStmt, List.mem_cons] at hx
+    rcases hx with rfl | hx
+    · exact Nat.le_refl _
+    · have := depths_list_ge cs (d + 1) x hx; omega
+theorem depths_list_ge : ∀ (ss : List Stmt) (d : Nat), ∀ x ∈ depthsList d ss, d ≤ x
+  | [], _ => by simp [depthsList]
+  | s :: ss, d => by
+    intro x hx
+    simp only [depthsList, List.mem_append] at hx
+    rcases hx with hx | hx
+    · exact depths_stmt_ge s d x hx
+    · exact depths_list_ge ss d x hx
+end
+
+mutual
+theorem depths_stmt_length : ∀ (s : Stmt) (d : Nat), (depthsStmt d s).length = sizeStmt s
+  | .node _ cs, d => by simp [depthsStmt, sizeStmt, depths_list_length cs (d + 1)]; omega
+theorem depths_list_length : ∀ (ss : List Stmt) (d : Nat), (depthsList d ss).length = sizeList ss
+  | [], _ => by simp [depthsList, sizeList]
+  | s :: ss, d => by simp [depthsList, sizeList, depths_stmt_length s d, depths_list_length ss d]
+end
+
+theorem lastSmaller_append_ge (x : Nat) : ∀ (a b : List Nat), (∀ y ∈ b, x ≤ y) →
+    lastSmaller x (a ++ b) = lastSmaller x a
+  | a, [], _ => by simp
+  | [], y :: b, h => by
+    have h1 := lastSmaller_append_ge x [] b (fun z hz => h z (by simp [hz]))
+    have hy := h y (by simp)
+    simp only [List.nil_append] at h1 ⊢
+    simp [lastSmaller, h1, Nat.not_lt.mpr hy]
+  | c :: a, b, h => by
+    simp [lastSmaller, lastSmaller_append_ge x a b h]
+
+theorem lastSmaller_snoc_lt (x y : Nat) (a : List Nat) (h : y < x) :
+    lastSmaller x (a ++ [y]) = some a.length := by
+  induction a with
+  | nil => simp [lastSmaller, h]
+  | cons c a ih => simp [lastSmaller, ih]
+
+mutual
+theorem parents_stmt : ∀ (s : Stmt) (d : Nat) (pre rest : List Nat) (par : Option Nat),
+    lastSmaller (4 * d) pre = par →
+    parentsFrom pre ((depthsStmt d s).map (4 * ·) ++ rest) =
+      treeParentsStmt pre.length par s ++ parentsFrom (pre ++ (depthsStmt d s).map (4 * ·)) rest
+  | .node _ cs, d, pre, rest, par, h => by
+    have ih := parents_list cs (d + 1) (pre ++ [4 * d]) rest (some pre.length)
+      (lastSmaller_snoc_lt _ _ pre (by omega))
+    simp only [depthsStmt, List.map_cons, List.cons_append, parentsFrom, h, treeParentsStmt]
+    rw [ih]
+    simp
+theorem parents_list : ∀ (ss : List Stmt) (d : Nat) (pre rest : List Nat) (par : Option Nat),
+    lastSmaller (4 * d) pre = par →
+    parentsFrom pre ((depthsList d ss).map (4 * ·) ++ rest) =
+      treeParentsList pre.length par ss ++ parentsFrom (pre ++ (depthsList d ss).map (4 * ·)) rest
+  | [], _, _, _, _, _ => by simp [depthsList, treeParentsList]
+  | s :: ss, d, pre, rest, par, h => by
+    have h2 : lastSmaller (4 * d) (pre ++ (depthsStmt d s).map (4 * ·)) = par := by
+      rw [lastSmaller_append_ge _ _ _ ?_, h]
+      intro y hy
+      obtain ⟨z, hz, rfl⟩ := List.mem_map.mp hy
+      have := depths_stmt_ge s d z hz
+      omega
+    have e1 := parents_stmt s d pre ((depthsList d ss).map (4 * ·) ++ rest) par h
+    have e2 := parents_list ss d (pre ++ (depthsStmt d s).map (4 * ·)) rest par h2
+    simp only [depthsList, List.map_append, List.append_assoc, treeParentsList]
+    rw [e1, e2]
+    simp [depths_stmt_length]
+end
+
+theorem indentParents_flatten (T : List Stmt) (hT : ListOk T) : indentParents (flatten T) = treeParents T := by
+  unfold indentParents flatten treeParents
+  rw [indents_list T 0 hT]
+  have := parents_list T 0 [] [] none rfl
+  simpa [parentsFrom] using this
+
+/-! ### a missing closing brace -/
+
+/-- brace depth after reading the text from depth `n`; `none` when a closing brace
+arrives at depth 0 -/
+def bal : Nat → Str → Option Nat
+  | n, [] => some n
+  | n, c :: cs =>
+    if c = '{' then bal (n + 1) cs
+    else if c = '}' then (match n with | 0 => none | m + 1 => bal m cs)
+    else bal n cs
+
+def NoBrace (x : Str) : Prop := ∀ c ∈ x, c ≠ '{' ∧ c ≠ '}'
+
+theorem bal_skip {x : Str} (hx : NoBrace x) (n : Nat) (y : Str) : bal n (x ++ y) = bal n y := by
+  induction x with
+  | nil => rfl
+  | cons c x ih =>
+    have hc := hx c (by simp)
+    simp only [List.cons_append, bal, hc.1, hc.2, if_false]
+    exact ih (fun z hz => hx z (by simp [hz]))
+
+theorem bal_nobrace {x : Str} (hx : NoBrace x) (n : Nat) : bal n x = some n := by
+  simpa [bal] using bal_skip hx n []
+
+theorem bal_append : ∀ (x y : Str) (n : Nat), bal n (x ++ y) = (bal n x).bind (fun m => bal m y)
+  | [], y, n => by simp [bal]
+  | c :: x, y, n => by
+    simp only [List.cons_append, bal]
+    split
+    · exact bal_append x y (n + 1)
+    · split
+      · cases n with
+        | zero => simp
+        | succ m => exact bal_append x y m
+      · exact bal_append x y n
+
+theorem bal_shift : ∀ (s : Str) (n m : Nat), bal n s = some m → bal (n + 1) s = some (m + 1)
+  | [], n, m, h => by simp [bal] at h ⊢; omega
+  | c :: s, n, m, h => by
+    simp only [bal] at h ⊢
+    split
+    · rename_i hc; simp only [hc, if_true] at h; exact bal_shift s (n + 1) m h
+    · rename_i hc
+      simp only [hc, if_false] at h
+      split
+      · rename_i hc2
+        simp only [hc2, if_true] at h
+        cases n with
+        | zero => simp at h
+        | succ k => exact bal_shift s k m h
+      · rename_i hc2
+        simp only [hc2, if_false] at h
+        exact bal_shift s n m h
+
+theorem ws_nobrace {w : Str} (hw : AllWs w) : NoBrace w := by
+  intro c hc; rcases hw c hc with h | h | h <;> subst h <;> decide
+
+theorem mem_takeWhile_true (p : Char → Bool) : ∀ (l : Str) (c : Char), c ∈ l.takeWhile p → p c = true
+  | [], _, h => by simp at h
+  | a :: l, c, h => by
+    by_cases ha : p a = true
+    · simp only [List.takeWhile_cons, ha, if_true, List.mem_cons] at h
+      rcases h with rfl | h
+      · exact ha
+      · exact mem_takeWhile_true p l c h
+    · simp [ha] at h
+
+theorem skip_nobrace (s : Str) : NoBrace (s.takeWhile isSkip) := by
+  intro c hc
+  have := mem_takeWhile_true _ _ _ hc
+  constructor <;> (rintro rfl; revert this; decide)
+
+theorem run_nobrace (s : Str) : NoBrace (s.takeWhile isRunChar) := by
+  intro c hc
+  have := mem_takeWhile_true _ _ _ hc
+  constructor <;> (rintro rfl; revert this; decide)
+
+def NoQuote (s : Str) : Prop := ∀ c ∈ s, c ≠ '"' ∧ c ≠ '\''
+
+/-- without quote characters the tokenizer splits the input at braces only -/
+theorem nextTok_split {s : Str} (hq : NoQuote s) :
+    match nextTok s with
+    | .bad => True
+    | .close r => ∃ sk, s = sk ++ '}' :: r ∧ NoBrace sk
+    | .opn r => ∃ sk, s = sk ++ '{' :: r ∧ NoBrace sk
+    | .text t r => ∃ sk, s = sk ++ (t ++ r) ∧ NoBrace sk ∧ NoBrace t := by
+  have hs : s = s.takeWhile isSkip ++ s.dropWhile isSkip := (List.takeWhile_append_dropWhile).symm
+  have hsk := skip_nobrace s
+  unfold nextTok
+  generalize hu : s.dropWhile isSkip = u at hs
+  cases u with
+  | nil => simp [lexHead]
+  | cons c cs =>
+    have hc : c ≠ '"' ∧ c ≠ '\'' := hq c (by rw [hs]; simp)
+    have hl : lexHead (c :: cs) =
+        if c = '{' then Lex.opn cs else if c = '}' then Lex.close cs
+        else if isRunChar c then Lex.text ((c :: cs).takeWhile isRunChar) ((c :: cs).dropWhile isRunChar)
+        else Lex.bad := by
+      simp [lexHead, hc.1, hc.2]
+    rw [hl]
+    by_cases h1 : c = '{'
+    · subst h1; simp only [if_true]; exact ⟨_, hs, hsk⟩
+    · by_cases h2 : c = '}'
+      · subst h2; simp only [h1, if_false, if_true]; exact ⟨_, hs, hsk⟩
+      · by_cases h3 : isRunChar c = true
+        · simp only [h1, h2, h3, if_false, if_true]
+          refine ⟨_, ?_, hsk, run_nobrace _⟩
+          rw [List.takeWhile_append_dropWhile]; exact hs
+        · simp [h1, h2, h3]
+
+theorem noQuote_suffix {a b : Str} (h : NoQuote (a ++ b)) : NoQuote b :=
+  fun c hc => h c (by simp [hc])
+
+/-- without quote characters a successful group parse has consumed a balanced text and
+the closing brace -/
+theorem parseItems_balanced : ∀ (f : Nat) (s : Str) (items : List Item) (r : Str), NoQuote s →
+    parseItems f s = .ok (items, r) → ∃ c, s = c ++ '}' :: r ∧ bal 0 c = some 0
+  | 0, _, _, _, _, h => by simp [parseItems] at h
+  | f + 1, s, items, r, hq, h => by
+    have hsplit := nextTok_split hq
+    unfold parseItems at h
+    cases ht : nextTok s with
+    | bad => simp [ht] at h
+    | close r0 =>
+      simp only [ht] at h hsplit
+      obtain ⟨sk, hs, hsk⟩ := hsplit
+      have : r0 = r := by injection h with h; injection h
+      subst this
+      exact ⟨sk, hs, bal_nobrace hsk 0⟩
+    | text t r0 =>
+      simp only [ht] at h hsplit
+      obtain ⟨sk, hs, hsk, htk⟩ := hsplit
+      cases h1 : parseItems f r0 with
+      | error e => simp [h1] at h
+      | ok v =>
+        obtain ⟨its, r1⟩ := v
+        simp only [h1] at h
+        have : r1 = r := by injection h with h; injection h
+        subst this
+        have hq0 : NoQuote r0 := by
+          rw [hs] at hq; exact noQuote_suffix (noQuote_suffix hq)
+        obtain ⟨c1, hc1, hb1⟩ := parseItems_balanced f r0 its r1 hq0 h1
+        refine ⟨sk ++ (t ++ c1), by rw [hs, hc1]; simp, ?_⟩
+        rw [bal_skip hsk, bal_skip htk]; exact hb1
+    | opn r0 =>
+      simp only [ht] at h hsplit
+      obtain ⟨sk, hs, hsk⟩ := hsplit
+      cases h1 : parseItems f r0 with
+      | error e => simp [h1] at h
+      | ok v =>
+        obtain ⟨g, r1⟩ := v
+        simp only [h1] at h
+        cases h2 : parseItems f r1 with
+        | error e => simp [h2] at h
+        | ok v2 =>
+          obtain ⟨its, r2⟩ := v2
+          simp only [h2] at h
+          have : r2 = r := by injection h with h; injection h
+          subst this
+          have hq0 : NoQuote r0 := by
+            rw [hs] at hq; exact noQuote_suffix (b := r0) (a := sk ++ ['{']) (by simpa using hq)
+          obtain ⟨c1, hc1, hb1⟩ := parseItems_balanced f r0 g r1 hq0 h1
+          have hq1 : NoQuote r1 := by
+            rw [hc1] at hq0; exact noQuote_suffix (b := r1) (a := c1 ++ ['}']) (by simpa using hq0)
+          obtain ⟨c2, hc2, hb2⟩ := parseItems_balanced f r1 its r2 hq1 h2
+          refine ⟨sk ++ '{' :: (c1 ++ '}' :: c2), by rw [hs, hc1, hc2]; simp, ?_⟩
+          rw [bal_skip hsk]
+          have e1 : bal 1 c1 = some 1 := bal_shift c1 0 0 hb1
+          simp only [bal, if_true]
+          rw [bal_append, e1]
+          simp [bal, hb2]
+
+mutual
+theorem renderStmt_bal (L : Layout) (hL : LayoutOk L) : ∀ (s : Stmt) (p : List Nat) (more : Bool),
+    StmtOk s → ∀ (n : Nat) (k : Str), bal n (renderStmt L p more s ++ k) = bal n k
+  | .node ws cs, p, more, hs => by
+    obtain ⟨hpre, hpost, hclose, hafter⟩ := hL p
+    have hws : WordsOk ws := by unfold StmtOk at hs; exact hs.1
+    have hcs : ListOk cs := by unfold StmtOk at hs; exact hs.2
+    have ht := words_textOk hws
+    have ih := renderList_bal L hL cs p 0 hcs
+    have hsemi : NoBrace (if (L p).semi then [';'] else []) := by
+      intro c hc; cases h : (L p).semi <;> simp [h] at hc
+      subst hc; decide
+    intro n k
+    unfold renderStmt
+    simp only [List.append_assoc]
+    rw [bal_skip (ws_nobrace hpre), bal_skip ht.nobrace, bal_skip hsemi, bal_skip (ws_nobrace hpost)]
+    split
+    · simp only [List.cons_append, List.append_assoc, bal, if_true]
+      rw [ih, bal_skip (ws_nobrace hclose)]
+      simp only [bal, if_true]
+      have : ¬ ('}' = '{') := by decide
+      simp only [this, if_false]
+      exact bal_skip (ws_nobrace hafter) n k
+    · split
+      · exact bal_skip (x := ['\n']) (by intro c hc; simp at hc; subst hc; decide) n k
+      · rfl
+theorem renderList_bal (L : Layout) (hL : LayoutOk L) : ∀ (ss : List Stmt) (p : List Nat) (i : Nat),
+    ListOk ss → ∀ (n : Nat) (k : Str), bal n (renderList L p i ss ++ k) = bal n k
+  | [], _, _, _ => by simp [renderList]
+  | s :: ss, p, i, hs => by
+    have hs1 : StmtOk s := by unfold ListOk at hs; exact hs.1
+    have hs2 : ListOk ss := by unfold ListOk at hs; exact hs.2
+    intro n k
+    unfold renderList
+    rw [List.append_assoc, renderStmt_bal L hL s _ _ hs1, renderList_bal L hL ss p (i + 1) hs2]
+end
+
+/-- the text with one closing brace removed leaves the outermost group open -/
+theorem bal_delete {a b : Str} (h : bal 0 (a ++ '}' :: b) = some 0) : bal 0 (a ++ b) = some 1 := by
+  rw [bal_append] at h
+  rw [bal_append]
+  cases ha : bal 0 a with
+  | none => simp [ha] at h
+  | some m =>
+    simp only [ha, Option.bind_some] at h ⊢
+    have : ¬ ('}' = '{') := by decide
+    simp only [bal, this, if_false, if_true] at h
+    cases m with
+    | zero => simp at h
+    | succ m => exact bal_shift b m 0 h
+
+theorem parseItems_err : ∀ (f : Nat) (s : Str) (e : Err), parseItems f s = .error e → e = .parseException
+  | 0, _, e, h => by simp [parseItems] at h; exact h.symm
+  | f + 1, s, e, h => by
+    unfold parseItems at h
+    cases ht : nextTok s with
+    | bad => simp [ht] at h; exact h.symm
+    | close r0 => simp [ht] at h
+    | text t r0 =>
+      simp only [ht] at h
+      cases h1 : parseItems f r0 with
+      | error e1 =>
+        simp only [h1] at h
+        have := parseItems_err f r0 e1 h1
+        injection h with h; rw [← h, this]
+      | ok v => obtain ⟨a, b⟩ := v; simp [h1] at h
+    | opn r0 =>
+      simp only [ht] at h
+      cases h1 : parseItems f r0 with
+      | error e1 =>
+        simp only [h1] at h
+        have := parseItems_err f r0 e1 h1
+        injection h with h; rw [← h, this]
+      | ok v =>
+        obtain ⟨g, r1⟩ := v
+        simp only [h1] at h
+        cases h2 : parseItems f r1 with
+        | error e2 =>
+          simp only [h2] at h
+          have := parseItems_err f r1 e2 h2
+          injection h with h; rw [← h, this]
+        | ok v2 => obtain ⟨a, b⟩ := v2; simp [h2] at h
+
+theorem braceText_missing_close (stop : Nat) (a b : Str) (hbal : bal 0 (a ++ '}' :: b) = some 0)
+    (hq : NoQuote (a ++ b)) (hnt : ∀ x ∈ a ++ b, x ≠ '\t')
+    (hhead : ∀ x ∈ (a ++ b).head?, x ≠ '{' ∧ x ≠ '}') :
+    braceText stop (a ++ b) = .error .parseException := by
+  rw [braceText_of_head stop _ hhead]
+  · have hnt' : ∀ x ∈ (a ++ b) ++ ['}'], x ≠ '\t' := by
+      intro x hx
+      rcases List.mem_append.mp hx with hx | hx
+      · exact hnt x hx
+      · have : x = '}' := by simpa using hx
+        subst this; decide
+    simp only [expandTabs_notab _ 1 hnt']
+    cases hp : parseItems ((a ++ b ++ ['}']).length + 1) (a ++ b ++ ['}']) with
+    | error e => simp only; rw [parseItems_err _ _ e hp]
+    | ok v =>
+      exfalso
+      obtain ⟨items, r⟩ := v
+      have hq' : NoQuote (a ++ b ++ ['}']) := by
+        intro c hc
+        rcases List.mem_append.mp hc with hc | hc
+        · exact hq c hc
+        · have : c = '}' := by simpa using hc
+          subst this; decide
+      obtain ⟨c, hc, hb⟩ := parseItems_balanced _ _ items r hq' hp
+      have h1 := bal_delete hbal
+      rcases List.eq_nil_or_concat r with rfl | ⟨r', z, rfl⟩
+      · have : c = a ++ b := by
+          have := List.append_inj' (hc.symm) rfl
+          exact this.1
+        rw [this, h1] at hb
+        simp at hb
+      · have h2 : (a ++ b) ++ ['}'] = (c ++ '}' :: r') ++ [z] := by rw [hc]; simp
+        have := (List.append_inj' h2 rfl).1
+        rw [this, bal_append, hb] at h1
+        simp [bal] at h1
+
 end Ccp.Brace
